@@ -30,6 +30,13 @@ KERNELS = {
     "apply_spans_index_of_min": {"owner": "C08"},
     "apply_spans_index_of_max": {"owner": "C08"},
     "_get_spans_for_2_fields_by_spans": {"owner": "C08"},
+    "apply_spans_index_of_first_filter": {"owner": "C08"},       # (dest_array, filter_array) are returned by name
+    "apply_spans_index_of_last_filter": {"owner": "C08"},
+    "apply_spans_index_of_min_filter": {"owner": "C08"},
+    "apply_spans_index_of_max_filter": {"owner": "C08"},
+    "_get_spans_for_2_fields_njit": {"owner": "C08", "mutated": [2]},        # returns a slice of the `spans` buffer it wrote
+    "_get_spans_for_multi_fields_njit": {"owner": "C08", "mutated": [1]},
+    "_get_spans_for_index_string_field": {"owner": "C08"},
     "apply_filter_to_index_values": {"owner": "C09"},
     "apply_indices_to_index_values": {"owner": "C09"},
     "map_valid": {"owner": "C04"},
@@ -48,6 +55,10 @@ KERNELS = {
     "generate_ordered_map_to_inner_both_unique_partial": {"owner": "C03", "mutated": [4, 5]},
 }
 C08_NOSRC = ("apply_spans_count", "apply_spans_index_of_first", "apply_spans_index_of_last")
+C08_REDUCE = ("apply_spans_count", "apply_spans_first", "apply_spans_last", "apply_spans_max", "apply_spans_min",
+              "apply_spans_index_of_first", "apply_spans_index_of_last", "apply_spans_index_of_min", "apply_spans_index_of_max")
+C08_FILTER = {"index_of_first": "apply_spans_index_of_first_filter", "index_of_last": "apply_spans_index_of_last_filter",
+              "index_of_min": "apply_spans_index_of_min_filter", "index_of_max": "apply_spans_index_of_max_filter"}
 
 QUICK_DERIVED = 270
 QUICK_RANDOM = 270
@@ -55,6 +66,10 @@ QUICK_RANDOM = 270
 
 def arr(xs):
     return {"arr": [int(x) for x in xs]}
+
+
+def arr2(rows):
+    return {"arr2": [[int(x) for x in r] for r in rows]}
 
 
 def barr(xs):
@@ -65,7 +80,7 @@ NONE = {"none": True}
 
 
 def gcase(kernel, args, unsafe=False, fuel=None, **ann):
-    n = sum(len(a.get("arr", a.get("barr", []))) for a in args)
+    n = sum(len(a.get("arr", a.get("barr", []))) + sum(len(r) for r in a.get("arr2", [])) for a in args)
     c = {"op": "gen_kernel", "kernel": kernel, "args": args, "fuel": fuel if fuel is not None else 4 * n + 64,
          "_unsafe": bool(unsafe),
          # the cross-cutting harnesses (C10/C11/C12, checks/harness/meta.py) re-run the owners' own well-formed cases and
@@ -96,7 +111,31 @@ def merge_safe(s0, s1):
     return not s1 or not s0 or (max(s1) >= max(s0) and all(a <= b for a, b in zip(s1, s1[1:])))
 
 
+def _int_col(col):
+    return col is not None and col.get("kind") == "numeric" and col.get("dtype", "int64") in ("int64", "int32") and \
+        ints_only(col["data"])
+
+
+def filter_case(k, sp, src, dest, filt, **ann):
+    """a `*_filter` kernel call; it may subscript out of range exactly when a buffer has fewer entries than there are spans"""
+    args = [arr(sp)] + ([arr(src)] if k.endswith(("min_filter", "max_filter")) else []) + [arr(dest), barr(filt)]
+    return gcase(k, args, unsafe=min(len(dest), len(filt)) < len(sp) - 1, **ann)
+
+
 def derive_c08(case):
+    op = case.get("op")
+    if op == "apply_filter" and _int_col(case.get("col")):
+        return filter_case(C08_FILTER[case["fn"]], case["spans"], case["col"]["data"], case["dest"], case["filt"], _from="C08")
+    if op == "spans_2arrays" and all(_int_col(c) for c in case["cols"]) and len(case["cols"]) == 2:
+        a, b = (c["data"] for c in case["cols"])
+        return gcase("_get_spans_for_2_fields_njit", [arr(a), arr(b), arr([0] * (len(a) + 1))], unsafe=len(b) < len(a),
+                     _from="C08")
+    if op == "spans_multi" and case["cols"] and all(_int_col(c) for c in case["cols"]) and \
+            len({len(c["data"]) for c in case["cols"]}) == 1:
+        rows = [c["data"] for c in case["cols"]]
+        return gcase("_get_spans_for_multi_fields_njit", [arr2(rows), arr([0] * (len(rows[0]) + 1))], _from="C08")
+    if op == "spans_indexed_raw":
+        return gcase("_get_spans_for_index_string_field", [arr(case["indices"]), arr(case["values"])], _from="C08")
     if case.get("op") == "spans_by_spans":
         s0, s1 = case["span0"], case["span1"]
         return gcase("_get_spans_for_2_fields_by_spans", [arr(s0), arr(s1)], unsafe=not merge_safe(s0, s1),
@@ -120,6 +159,52 @@ def random_c08(rng, n_cases):
     names = [k for k, v in KERNELS.items() if v["owner"] == "C08"]
     for t in range(n_cases):
         k = names[t % len(names)]
+        if k in C08_FILTER.values():
+            n = rng.choice([0, 1, 2, 3, rng.randrange(1, 12), rng.randrange(1, 40)])
+            src = [rng.choice([0, 1, -1, 5, -7, 2 ** 40, rng.randrange(-9, 10)]) for _ in range(n)]
+            what = rng.randrange(10)
+            if what < 7:                                   # non-decreasing, empty spans included
+                sp = sorted(rng.randrange(0, n + 1) for _ in range(rng.randrange(0, 7)))
+            else:                                          # anything: decreasing, beyond the column, negative
+                sp = [rng.randrange(-2, n + 3) for _ in range(rng.randrange(0, 5))]
+            m = max(len(sp) - 1, 0)
+            dl, fl = (m, m) if rng.random() < 0.8 else (rng.randrange(0, m + 2), rng.randrange(0, m + 2))
+            out.append(filter_case(k, sp, src, [7] * dl, [rng.random() < 0.5 for _ in range(fl)], _from="random"))
+            continue
+        if k == "_get_spans_for_2_fields_njit":
+            n = rng.choice([0, 1, 2, 3, rng.randrange(1, 30)])
+            a = sorted(rng.randrange(0, 4) for _ in range(n))
+            b = [rng.randrange(0, 3) for _ in range(n if rng.random() < 0.85 else rng.randrange(0, n + 2))]
+            cap = n + 1 if rng.random() < 0.8 else rng.randrange(0, n + 3)
+            runs = 1 + sum(1 for i in range(1, n) if a[i] != a[i - 1] or (i < len(b) and b[i] != b[i - 1]))
+            out.append(gcase(k, [arr(a), arr(b), arr([9] * cap)], unsafe=len(b) < n or cap < (runs + 1 if n else 1),
+                             _from="random"))
+            continue
+        if k == "_get_spans_for_multi_fields_njit":
+            n = rng.choice([0, 1, 2, 3, rng.randrange(1, 20)])
+            rows = [[rng.randrange(0, 2 + c) for _ in range(n)] for c in range(rng.randrange(1, 5))]
+            rows[0].sort()
+            cap = n + 1 if rng.random() < 0.8 else rng.randrange(0, n + 3)
+            runs = 1 + sum(1 for i in range(1, n) if any(r[i] != r[i - 1] for r in rows))
+            out.append(gcase(k, [arr2(rows), arr([9] * cap)], unsafe=cap < (runs + 1 if n else 1), _from="random"))
+            continue
+        if k == "_get_spans_for_index_string_field":
+            n = rng.choice([0, 0, 1, 2, 3, rng.randrange(1, 15)])
+            strs = [[rng.choice([97, 98, 32])] * rng.choice([0, 1, 1, 2, 3]) for _ in range(n)]
+            strs = [strs[i - 1] if i and rng.random() < 0.5 else strs[i] for i in range(n)]
+            idx = [0]
+            for st in strs:
+                idx.append(idx[-1] + len(st))
+            vals = [c for st in strs for c in st]
+            what = rng.randrange(10)
+            if what == 0:
+                idx = []                                   # a field without any index entry
+            elif what == 1:
+                idx = [rng.randrange(0, len(vals) + 3) for _ in idx]       # offsets that are not an encoding
+            elif what == 2:
+                vals = vals[:rng.randrange(0, len(vals) + 1)]
+            out.append(gcase(k, [arr(idx), arr(vals)], _from="random"))
+            continue
         if k == "_get_spans_for_2_fields_by_spans":
             n = rng.randrange(0, 30)
             mk = lambda: sorted(set([0, n] + [rng.randrange(0, n + 1) for _ in range(rng.randrange(0, 8))]))  # noqa: E731
@@ -414,6 +499,9 @@ def _decode(np, a):
         return np.array(a["arr"], dtype=np.int64)
     if "barr" in a:
         return np.array(a["barr"], dtype=bool)
+    if "arr2" in a:
+        rows = a["arr2"]
+        return np.array(rows, dtype=np.int64).reshape(len(rows), len(rows[0]) if rows else 0)
     if "int" in a:
         return np.int64(a["int"])
     if "bool" in a:
